@@ -59,11 +59,12 @@ OPS = [
     ("blocked",    "X.blocked(0, 2)",      "t", "%s.blocked(0, 2)"),
     ("sliced3",    "X.sliced(0, 2, 1)",    "t", "%s.sliced(0, 2, 1)"),
     ("reindexed",  "X.reindexed(1)",       "t", "%s.reindexed(1)"),
-    ("call_ii",    "X(0, 0)",              "t", "%s(0, 0)"),
-    ("call_ri",    "X({0, 2}, 0)",         "t", "%s({0, 2}, 0)"),
+    ("call_ii",    "X(0, 0)",              "q", "%s(0, 0)"),
+    ("call_ri",    "X({0, 2}, 0)",         "q", "%s({0, 2}, 0)"),
     ("call_ir",    "X(0, {0, 2})",         "t", "%s(0, {0, 2})"),
     ("call_rr",    "X({0, 2}, {0, 2})",    "t", "%s({0, 2}, {0, 2})"),
     ("call_alli",  "X(multi::ALL, 0)",     "t", "%s(multi::ALL, 0)"),
+    ("call_iii",   "X(0, 0, 0)",           "t", "%s(0, 0, 0)"),
     ("addr",       "&c16::view_or_elem(X)",                   "t", "(&%s)"),
     ("plus1",      "c16::obj(X) + 1",                "t", "(%s + 1)"),
     ("origin",     "X.origin()",           "t", "%s.origin()"),
